@@ -18,8 +18,18 @@
 (*      . a dynamic type that is not comparable (slice, map, func, or a    *)
 (*        struct holding one in an interface field) makes every use of the *)
 (*        key panic: insert, lookup and delete                             *)
+(*      . complex numbers, and arrays / structs with floating-point or     *)
+(*        complex components, are compared component by component: such a  *)
+(*        key carries fp = the sequence of its floating-point parts and    *)
+(*        rest = its other components.  +0 and -0 are equal in every part; *)
+(*        a NaN in ANY part makes the key unequal to itself, so it behaves *)
+(*        exactly like a NaN key (new entry per insertion, never found)    *)
 (*    An entry is named by the string  ty:class  (NaN entries: ty:NaN#id,  *)
 (*    id fresh per insertion; `nans` remembers them).                      *)
+(*      . pointer keys (also a pointer inside a struct, also inside an     *)
+(*        interface with methods) are equal iff they point to the same     *)
+(*        variable; what that variable holds is irrelevant, so a write to  *)
+(*        it (Poke) leaves the map as it is.  x = the variable's number.   *)
 (*  - lookup returns the most recently stored value, or (zero, false)      *)
 (*  - len is the number of entries                                         *)
 (*  - reads of a nil map behave like reads of an empty map, writes panic   *)
@@ -37,29 +47,37 @@ EXTENDS Integers, FiniteSets, Sequences, TLC
 
 VARIABLES isnil,     \* the map variable holds nil
           m,         \* [entries -> values]   (empty when nil)
-          nans,      \* the NaN entries of m: set of [ty, e]
+          nans,      \* the NaN entries of m: set of [ty, x, e]
           nextid,    \* next fresh identity for a NaN entry
           it         \* [open loop ids -> [need, yielded]]
 
 mvars == <<isnil, m, nans, nextid, it>>
 
 FloatTy      == {"float64", "wrap/float64"}
+\* key types compared part by part: [ty, x, fp |-> <<floating-point parts>>, rest |-> the other components]
+PartTy       == {"complex64", "complex128", "cstruct", "[2]float32"}     \* cstruct = struct{ c complex64; i int32 }
 UnhashableTy == {"[]int", "map[int]int", "func()", "wrap/[]int"}
 
-IsNaN(k)      == k.ty \in FloatTy /\ k.x = "NaN"
+HasParts(k)   == k.ty \in PartTy
+IsNaN(k)      == IF HasParts(k) THEN \E p \in DOMAIN k.fp : k.fp[p] = "NaN"
+                 ELSE k.ty \in FloatTy /\ k.x = "NaN"
 Unhashable(k) == k.ty \in UnhashableTy
-IsZero(k)     == k.ty \in FloatTy /\ k.x \in {"+0", "-0"}
+IsZero(k)     == IF HasParts(k) THEN \E p \in DOMAIN k.fp : k.fp[p] \in {"+0", "-0"}
+                 ELSE k.ty \in FloatTy /\ k.x \in {"+0", "-0"}
 
-\* the entry a findable key denotes (complex keys carry their parts: each part compares like a float, +0 = -0)
+\* the entry a findable key denotes (each floating-point part compares like a float: +0 = -0)
 ZPart(p)  == IF p \in {"+0", "-0"} THEN "0" ELSE p
-Ent(k)    == IF k.ty = "complex64" THEN k.ty \o ":" \o ZPart(k.re) \o "," \o ZPart(k.im)
+RECURSIVE ZJoin(_)
+ZJoin(s)  == IF s = <<>> THEN "" ELSE ZPart(Head(s)) \o "," \o ZJoin(Tail(s))
+Ent(k)    == IF HasParts(k) THEN k.ty \o ":" \o ZJoin(k.fp) \o ";" \o k.rest
              ELSE k.ty \o ":" \o (IF IsZero(k) THEN "0" ELSE k.x)
 Has(k)    == ~IsNaN(k) /\ Ent(k) \in DOMAIN m
 Empty     == [e \in {} |-> 0]
 Size      == Cardinality(DOMAIN m)
 
-\* entries a produced key may stand for
-Denotes(k) == IF IsNaN(k) THEN {r.e : r \in {r \in nans : r.ty = k.ty}}
+\* entries a produced key may stand for (a NaN entry holds the key it was created with: x = the key as written,
+\* NaN payloads apart)
+Denotes(k) == IF IsNaN(k) THEN {r.e : r \in {r \in nans : r.ty = k.ty /\ r.x = k.x}}
               ELSE IF Ent(k) \in DOMAIN m THEN {Ent(k)} ELSE {}
 
 Forget(S) == [i \in DOMAIN it |-> [need |-> it[i].need \ S, yielded |-> it[i].yielded \ S]]
@@ -84,7 +102,7 @@ Insert(k, v, r) ==
        /\ IF IsNaN(k)
           THEN LET e == k.ty \o ":NaN#" \o ToString(nextid) IN
                /\ m' = (e :> v) @@ m
-               /\ nans' = nans \cup {[ty |-> k.ty, e |-> e]}
+               /\ nans' = nans \cup {[ty |-> k.ty, x |-> k.x, e |-> e]}
                /\ nextid' = nextid + 1
           ELSE /\ m' = IF Has(k) THEN [m EXCEPT ![Ent(k)] = v] ELSE (Ent(k) :> v) @@ m
                /\ UNCHANGED <<nans, nextid>>
@@ -116,6 +134,10 @@ Lookup1(k, v, r) ==
   /\ UNCHANGED mvars
 
 LenIs(n) == n = Size /\ UNCHANGED mvars
+
+\* *p = ...  for the variable a pointer key k points to: the key is the pointer, the map does not change
+PtrTy   == {"*cell", "pbox"}          \* pbox = struct{ p *cell }
+Poke(k) == UNCHANGED mvars
 
 Clear(r) ==
   /\ r = "ok"
